@@ -63,6 +63,8 @@ type Ctx struct {
 	Obs         []*Obligation
 	obKeys      map[string]bool
 	curRule     string
+	borrow      map[string]string
+	borrowOwner string
 	Explanation string
 	RuleDocs    []string
 	NotDecided  []string
@@ -300,7 +302,35 @@ func (c *Ctx) FnPos(fn *ssa.Function) string {
 }
 
 // Rule runs one rule body; a panic (unresolved anchor, checker bug) becomes an undecided obligation, which fails.
+// Borrow evaluates selected rules of another property's rule set under this property's rule ids (a clause shared by
+// two properties is decided by one implementation). mapping: foreign rule id -> local rule id.
+func (c *Ctx) Borrow(owner string, run func(*Ctx), mapping map[string]string) {
+	if c.borrow != nil {
+		return // rules shared into a property whose rules are themselves being shared: not transitive
+	}
+	expl, nd, as, tr := c.Explanation, c.NotDecided, c.Assumptions, c.Trusted
+	c.borrow, c.borrowOwner = mapping, owner
+	func() {
+		defer func() {
+			if r := recover(); r != nil {
+				c.Obs = append(c.Obs, &Obligation{Rule: "borrowed", Construct: "checker", Status: "undecided", Detail: fmt.Sprintf("checker panic in shared rules: %v", r)})
+			}
+		}()
+		run(c)
+	}()
+	c.borrow = nil
+	c.Explanation, c.NotDecided, c.Assumptions, c.Trusted = expl, nd, as, tr
+}
+
 func (c *Ctx) Rule(id, doc string, body func()) {
+	if c.borrow != nil {
+		target, ok := c.borrow[id]
+		if !ok {
+			return
+		}
+		doc += " (rule shared with " + id + ")"
+		id = target
+	}
 	c.curRule = id
 	c.RuleDocs = append(c.RuleDocs, id+": "+doc)
 	t0 := time.Now()
@@ -338,6 +368,12 @@ func (c *Ctx) Ob(rule, construct, pos string, ok bool, detail string) *Obligatio
 	if rule == "" {
 		rule = c.curRule
 	}
+	origRule := rule
+	if c.borrow != nil {
+		if t, has := c.borrow[rule]; has {
+			rule = t
+		}
+	}
 	key := rule + "|" + construct
 	if c.obKeys[key] {
 		// keep keys distinct: same construct evaluated twice (e.g. two call sites) gets a numeric suffix
@@ -357,7 +393,8 @@ func (c *Ctx) Ob(rule, construct, pos string, ok bool, detail string) *Obligatio
 	} else {
 		o.Status = "violation"
 		for _, k := range c.known.Known {
-			if k.Property == c.Prop && k.Rule == rule && k.Construct == construct {
+			// a shared rule sees the same construct as its owner: a finding recorded for the owner is the same finding here
+			if (k.Property == c.Prop && k.Rule == rule || c.borrow != nil && k.Property == c.borrowOwner && k.Rule == origRule) && k.Construct == construct {
 				o.Status = "known-finding"
 				o.Detail = k.ID + ": " + k.What + " — " + detail
 			}
@@ -374,12 +411,27 @@ func (c *Ctx) Info(rule, construct, pos, detail string) {
 	if rule == "" {
 		rule = c.curRule
 	}
+	if c.borrow != nil {
+		if t, has := c.borrow[rule]; has {
+			rule = t
+		}
+	}
 	c.Obs = append(c.Obs, &Obligation{Rule: rule, Construct: construct, Pos: pos, Status: "info", Detail: detail})
 }
 
 // Min declares the number of obligations of a rule that were confirmed by hand on the pinned tree; fewer is a failure
 // (a rule that matches nothing must not pass vacuously).
-func (c *Ctx) Min(rule string, n int) { c.MinCounts[rule] = n }
+func (c *Ctx) Min(rule string, n int) {
+	if c.borrow != nil {
+		t, has := c.borrow[rule]
+		if !has {
+			return
+		}
+		c.MinCounts[t] += n
+		return
+	}
+	c.MinCounts[rule] += n
+}
 
 // ---- evidence -------------------------------------------------------------------------------------------------
 
